@@ -221,7 +221,7 @@ Proof.
   erewrite rrun_spec_bind_ok by (apply rrun_seek; [lia|exact Hm]).
   erewrite rrun_spec_bind_ok by (apply rrun_rd; lia).
   assert (Hb : slice (len pre) 16 log = zeros 8 ++ le_bytes 8 X).
-  { rewrite Hlog, <- !app_assoc. rewrite !app_assoc with (l := zeros 8). rewrite <- !app_assoc with (l := zeros 8 ++ le_bytes 8 X).
+  { rewrite Hlog. set (H := zeros 8 ++ le_bytes 8 X) in *. rewrite <- !app_assoc.
     apply slice_app_exact. symmetry. exact Hh. }
   rewrite Hb.
   replace (byte_at (zeros 8 ++ le_bytes 8 X) 0) with 0 by reflexivity.
@@ -232,3 +232,109 @@ Proof.
   rewrite le_num_le_bytes. change (256 ^ N.of_nat 8) with (2 ^ 64).
   reflexivity.
 Qed.
+
+Lemma len_blob_section data :
+  len (blob_section data) = 16 + len data + (4 - len data mod 4) mod 4.
+Proof. unfold blob_section. rewrite !len_app, !len_zeros, len_le_bytes. lia. Qed.
+
+(** The section length field is a u64: the statement of R needs the section length
+    (16 + data length, rounded up to 4) to fit, which [len data < 2 ^ 64] alone does not give
+    (see [blob_read_spec_as_stated_false] below). *)
+Definition blob_section_length_fits_u64 (data : list N) : Prop :=
+  ((16 + len data + 3) / 4) * 4 < 2 ^ 64.
+
+(* R: reading it back returns exactly the data, wherever the section lies *)
+Theorem blob_read_spec : forall (data pre post log : list N),
+  log = pre ++ blob_section data ++ post ->
+  len log mod 1020 = 0 -> len data < 2 ^ 64 ->
+  blob_section_length_fits_u64 data ->
+  snd (rrun_spec log (blob_read (len log) (phys_of_log (len pre)) (len data)) 0) = Ok data.
+Proof.
+  intros data pre post log Hlog Hm Hd Hfit. unfold blob_section_length_fits_u64 in Hfit.
+  rewrite blob_section_split in Hlog.
+  set (X := ((16 + len data + 3) / 4) * 4) in *.
+  set (pad := zeros ((4 - len data mod 4) mod 4)) in *.
+  rewrite (blob_read_prefix X data pad pre post log _ _ Hlog Hm).
+  assert (HL : len log = len pre + 16 + len data + len pad + len post).
+  { rewrite Hlog. rewrite !len_app, len_zeros, len_le_bytes. lia. }
+  rewrite (N.mod_small X) by exact Hfit.
+  unfold U64_MAX.
+  destruct (_ <? _) eqn:E1; [exfalso; subst X; lia|].
+  erewrite rrun_spec_bind_ok by (apply copy_loop_spec; lia).
+  cbn [app].
+  assert (Hs : slice (len pre + 16) (len data) log = data).
+  { rewrite Hlog. set (H := zeros 8 ++ le_bytes 8 X) in *.
+    assert (Hh : len H = 16) by (subst H; rewrite len_app, len_zeros, len_le_bytes; reflexivity).
+    rewrite <- !app_assoc. rewrite (app_assoc pre H).
+    replace (len pre + 16) with (len (pre ++ H)) by (rewrite len_app; lia).
+    apply slice_app_exact. reflexivity. }
+  rewrite Hs, N.eqb_refl. reflexivity.
+Qed.
+
+(** Without the extra hypothesis the header's length field wraps and the length check rejects. *)
+Lemma blob_read_overflow : forall (data pre post log : list N),
+  log = pre ++ blob_section data ++ post ->
+  len log mod 1020 = 0 -> len data < 2 ^ 64 ->
+  2 ^ 64 <= ((16 + len data + 3) / 4) * 4 ->
+  snd (rrun_spec log (blob_read (len log) (phys_of_log (len pre)) (len data)) 0) = Err EInvalid.
+Proof.
+  intros data pre post log Hlog Hm Hd Hbig.
+  rewrite blob_section_split in Hlog.
+  set (X := ((16 + len data + 3) / 4) * 4) in *.
+  set (pad := zeros ((4 - len data mod 4) mod 4)) in *.
+  rewrite (blob_read_prefix X data pad pre post log _ _ Hlog Hm).
+  unfold U64_MAX.
+  destruct (_ <? _) eqn:E1; [reflexivity|].
+  exfalso. subst X. lia.
+Qed.
+
+(* the statement of R with only [len data < 2 ^ 64] is false: data of 2^64 - 4 zero bytes at the
+   start of the stream, followed by 752 bytes to fill the last payload *)
+Theorem blob_read_spec_as_stated_false :
+  ~ (forall (data pre post log : list N),
+       log = pre ++ blob_section data ++ post ->
+       len log mod 1020 = 0 -> len data < 2 ^ 64 ->
+       snd (rrun_spec log (blob_read (len log) (phys_of_log (len pre)) (len data)) 0) = Ok data).
+Proof.
+  intros H.
+  assert (Hd : len (zeros (2 ^ 64 - 4)) = 2 ^ 64 - 4) by apply len_zeros.
+  assert (Hp : len (zeros 752) = 752) by apply len_zeros.
+  revert Hd Hp. generalize (zeros (2 ^ 64 - 4)) as data. generalize (zeros 752) as post.
+  intros post data Hd Hp.
+  assert (Hm : len ([] ++ blob_section data ++ post) mod 1020 = 0).
+  { rewrite !len_app, len_nil, len_blob_section, Hd, Hp. lia. }
+  assert (Hlt : len data < 2 ^ 64) by lia.
+  specialize (H data [] post _ eq_refl Hm Hlt).
+  rewrite (blob_read_overflow data [] post _ eq_refl Hm Hlt) in H by (rewrite Hd; lia).
+  discriminate H.
+Qed.
+
+(** * A successful read has the descriptor's length *)
+
+Lemma rrun_spec_bind_inv : forall A B log (p : rprog A) (f : A -> rprog B) off b,
+  snd (rrun_spec log (rbind p f) off) = Ok b ->
+  exists off1 a, rrun_spec log p off = (off1, Ok a) /\ snd (rrun_spec log (f a) off1) = Ok b.
+Proof.
+  intros A B log p f off b H. rewrite rrun_spec_bind in H.
+  destruct (rrun_spec log p off) as [off1 [a|k|]]; cbn [snd] in H; try discriminate H.
+  exists off1, a. split; [reflexivity|exact H].
+Qed.
+
+Theorem blob_read_exact_or_err : forall (log : list N) (log_size offset length off0 : N) (bs : list N),
+  snd (rrun_spec log (blob_read log_size offset length) off0) = Ok bs -> len bs = length.
+Proof.
+  intros log log_size offset length off0 bs H. unfold blob_read in H.
+  apply rrun_spec_bind_inv in H as (o1 & u & _ & H).
+  apply rrun_spec_bind_inv in H as (o2 & b & _ & H).
+  destruct (negb (byte_at b 0 =? 0)) eqn:E0; [cbn in H; discriminate H|].
+  cbv zeta in H.
+  destruct (N.min (le_num (slice 8 8 b) + 16) U64_MAX <? length) eqn:E1; [cbn in H; discriminate H|].
+  apply rrun_spec_bind_inv in H as (o3 & d & _ & H).
+  destruct (len d =? length) eqn:E2; cbn [negb rret rfail rrun_spec snd] in H; [|discriminate H].
+  injection H as <-. lia.
+Qed.
+
+Print Assumptions blob_read_spec_as_stated_false.
+Print Assumptions blob_write_spec.
+Print Assumptions blob_read_spec.
+Print Assumptions blob_read_exact_or_err.
